@@ -218,6 +218,13 @@ def handle (op : String) (args : List String) : Option String :=
   | "loss.moments" => do
       let ts ← run (list flt) args
       pure (fl (Drv.Losses.moments18 ts))
+  | "gsl.discretize" => do
+      -- nb | ts : the symbols of ts for its own min and max (EPS = 1e-5)
+      let r ← run (do let nb ← nat; let ts ← list flt; pure (nb, ts)) args
+      let (nb, ts) := r
+      let lo := ts.foldl (fun a b => if b < a then b else a) (ts.headD 0.0)
+      let hi := ts.foldl (fun a b => if a < b then b else a) (ts.headD 0.0)
+      pure (showNats (Gsl.discretize Float.ofNat 0.00001 ts nb lo hi))
   | "gsl.words" => do
       let (ts, len) ← run (do let ts ← list nat; let l ← nat; pure (ts, l)) args
       pure (showNats (Gsl.getWords ts len) ++ " | " ++
